@@ -303,7 +303,7 @@ class Engine(object):
         self.todo = [[]]
         results = []
         while self.todo:
-            self.prefix = self.todo.pop()
+            self.prefix = self.todo.pop(0) if getattr(self, 'fifo', False) else self.todo.pop()
             self.decisions = []
             self.inputs = {}
             self.path_out = []
